@@ -92,6 +92,29 @@ func c09Content(res *explore.Result, content string, pi int, verbose bool) {
 		bad("File.Len", 0, "", fmt.Sprint(f.Len()), fmt.Sprint(n))
 		return
 	}
+	// byte slices the reader handed out are kept until every position has been visited and then read again: a value
+	// that was right when it was returned must not be rewritten by a later call
+	type kept struct {
+		b    []byte
+		was  string
+		what string
+	}
+	var retained []kept
+	keep := func(b []byte, what string) []byte {
+		if len(b) > 0 {
+			retained = append(retained, kept{b, string(b), what})
+		}
+		return b
+	}
+	defer func() {
+		for _, k := range retained {
+			res.Add("transitions", 1)
+			if string(k.b) != k.was {
+				res.Violate("returned-bytes-rewritten-later", fmt.Sprintf("content %s %s: the bytes %q returned by %s read %q after the later calls on the same reader", q(content), pl.name, k.was, k.what, k.b), cs)
+				return
+			}
+		}
+	}()
 	for cur := 0; cur <= n; cur++ {
 		pos := parsley.Pos(base + cur)
 		rest := d[cur:]
@@ -158,13 +181,19 @@ func c09Content(res *explore.Result, content string, pi int, verbose bool) {
 			if k > 0 {
 				want = pb(parsley.Pos(base+cur+k), rest[:k])
 			}
-			check("ReadRegexp", "`a+`", func() string { return pb(r.ReadRegexp(pos, "a+")) }, want)
+			check("ReadRegexp", "`a+`", func() string {
+				p, b := r.ReadRegexp(pos, "a+")
+				return pb(p, keep(b, fmt.Sprintf("ReadRegexp(+%d, `a+`)", cur)))
+			}, want)
 			k = reNotA(rest)
 			want = pb(pos, nil)
 			if k > 0 {
 				want = pb(parsley.Pos(base+cur+k), rest[:k])
 			}
-			check("ReadRegexp", "`[^a]`", func() string { return pb(r.ReadRegexp(pos, "[^a]")) }, want)
+			check("ReadRegexp", "`[^a]`", func() string {
+				p, b := r.ReadRegexp(pos, "[^a]")
+				return pb(p, keep(b, fmt.Sprintf("ReadRegexp(+%d, `[^a]`)", cur)))
+			}, want)
 			// a top-level alternation must be anchored at the cursor as a whole
 			k = 0
 			if bytes.HasPrefix(rest, []byte("a_")) || bytes.HasPrefix(rest, []byte("_a")) {
@@ -196,7 +225,13 @@ func c09Content(res *explore.Result, content string, pi int, verbose bool) {
 			if k > 0 {
 				want = ps(parsley.Pos(base+cur+k), sub)
 			}
-			check("ReadRegexpSubmatch", "`(a)(_)?`", func() string { return ps(r.ReadRegexpSubmatch(pos, "(a)(_)?")) }, want)
+			check("ReadRegexpSubmatch", "`(a)(_)?`", func() string {
+				p, m := r.ReadRegexpSubmatch(pos, "(a)(_)?")
+				for _, g := range m {
+					keep(g, fmt.Sprintf("ReadRegexpSubmatch(+%d, `(a)(_)?`)", cur))
+				}
+				return ps(p, m)
+			}, want)
 		}
 		for _, rf := range readfFuncs {
 			want := pb(pos, nil)
@@ -206,7 +241,10 @@ func c09Content(res *explore.Result, content string, pi int, verbose bool) {
 				}
 			}
 			rf := rf
-			check("Readf", rf.name, func() string { return pb(r.Readf(pos, rf.f)) }, want)
+			check("Readf", rf.name, func() string {
+				p, b := r.Readf(pos, rf.f)
+				return pb(p, keep(b, fmt.Sprintf("Readf(+%d, %s)", cur, rf.name)))
+			}, want)
 		}
 		// whitespace skipping
 		e := cur
